@@ -122,6 +122,19 @@ def load_die(emb, mregs, dw, dh):
 def apply_op(emb, die, op):
     """C11 operations on a real die; returns the event with the lists observed afterwards."""
     ev = dict(op)
+    if op["op"] == "refused":
+        # a request outside the quantifier; whatever the code answers, the die is used again afterwards
+        try:
+            die.split_refinable_regions(op["p"] / op["q"], op["n"])
+            ev["raised"] = 0
+        except Exception as e:
+            ev["raised"] = 1
+            ev["why"] = f"{type(e).__name__}: {e}"[:120]
+        refinable, fixed = die.floorplanning_rectangles()
+        ev["refinable"] = tagged(emb, refinable)
+        ev["block"] = tagged(emb, die.blockages)
+        ev["fixed"] = tagged(emb, fixed, "F")
+        return ev
     try:
         if op["op"] == "split":
             die.split_refinable_regions(op["p"] / op["q"], op["n"])
